@@ -497,14 +497,24 @@ def check(ctx):
     cmp_ok = False
     for c in cls:
         ctx.touch(c)
-        for b, t, fr in c.iter_calls():
-            if fr and lib.tail(mir.fn_name(fr), 1) in ("eq", "ne") and any(a.endswith("EntityReactionType") for a in fr.get("args", [])):
-                arms = lib.bool_arms(c, b)
-                # on the not-equal arm the closure yields None; on the equal arm Some(sys_command)
-                somes = [bb for bb, i, st in c.iter_stmts() if st["k"] == "assign" and "agg" in st["rv"] and st["rv"]["agg"].get("vname") == "Some"]
-                eq_arm = arms[0][2] if lib.tail(mir.fn_name(fr), 1) == "ne" else arms[0][1]
-                if arms and somes and all(c.dominates(eq_arm, s) for s in somes):
-                    cmp_ok = True
+        whole = {b for (b, t, fr, is_eq) in lib.comparison_calls(c) if any(a.endswith("EntityReactionType") for a in fr.get("args", []))
+                 and any(o[0] == "arg" and o[1] == 1 for o in origins(c, t["args"][0]) | origins(c, t["args"][1]))
+                 and any(o[0] == "arg" and o[1] == 2 for o in origins(c, t["args"][0]) | origins(c, t["args"][1]))}
+        if not whole:
+            continue
+        # filter_map form: yields Some only on the equal arm
+        somes = [bb for bb, i, st in c.iter_stmts() if st["k"] == "assign" and "agg" in st["rv"] and st["rv"]["agg"].get("vname") == "Some"]
+        heads = []
+        for (b, t, fr, is_eq) in lib.comparison_calls(c):
+            if b in whole:
+                for (sb, tt, ft) in lib.bool_arms(c, b):
+                    heads.append(tt if is_eq else ft)
+        if somes and heads and all(lib.dominated_by_any(c, s, heads) for s in somes):
+            cmp_ok = True
+        # filter form: the predicate returns true only when the comparison was equal
+        reqs = lib.true_return_requirements(c) if c.local_ty(0) == "bool" else None
+        if reqs and all(any(r.get(b) is True for b in whole) for r in reqs):
+            cmp_ok = True
     ctx.check(cmp_ok, "C01.c", "EntityReactors::iter_rtype:filters-on-whole-reaction-type", "%s:%d" % (it.file, it.line),
               "yields an entry only on the equal arm of a comparison of whole EntityReactionType values",
               "iter_rtype does not filter by comparing the whole EntityReactionType (variant and TypeId)")
